@@ -149,8 +149,8 @@ func c12DrawCase(rt *rapid.T) *c12Case {
 		if rapid.IntRange(0, 11).Draw(rt, lbl+"longName") == 0 {
 			// a base name next to which no temporary file of the form
 			// ".<name>.gopatch-<n>" can be created
-			if base := name[strings.LastIndex(name, "/")+1:]; len(base) < 236 {
-				name += strings.Repeat("n", 236-len(base))
+			if base := name[strings.LastIndex(name, "/")+1:]; len(base) < 246 {
+				name += strings.Repeat("n", 246-len(base))
 			}
 		}
 		cs.Files[i].Name = name + ".go"
